@@ -88,6 +88,8 @@ def statements(pa: str, qa: str) -> List[str]:
         f'import {pa}.w\nZ8 = {pa}.w.run', f'from {pa} import zlate as zl\nZ9 = zl.Late0\nZ10 = zl.late_run', f'import {pa}.w.run as wr0\nZ11 = wr0.other', 'from . import w as w2\nZ12 = w2.run',
         # an object its package re-exports (moves), named by where it is defined: found through the alias the move leaves behind (System.find_object)
         f'from {pa}2.core import Eng', f'from {pa}2.core import Eng as E2, stays', f'import {pa}2.core as xc0\nZ13 = xc0.Eng', f'from {pa}2 import Eng as E3', f'import {pa}2\nZ14 = {pa}2.core.Eng',
+        # uses of a name that the module AND the enclosing class bind (only importable in the nested-decoy scope)
+        'Z15 = Dk', 'Z16 = Df\nclass Mine2(Dk):\n    "ID:Mine2"',
         f'from {pa}.emp import *', f'from {pa}.c import Widget0, Page0 as P0', f'import {pa}.c as dm', f'from {pa}.c import Widget0\nclass Mine(Widget0):\n    "ID:Mine"',
     ]
 
@@ -104,20 +106,24 @@ def scopes(pa: str, qa: str) -> List[Tuple[str, str, str, str]]:
         ('cls-init-s', f'{pa}/s/__init__.py', f'{pa}.s', 'Scope'),
         ('mod-v', f'{qa}/v.py', f'{qa}.v', ''),
         ('cls-v', f'{qa}/v.py', f'{qa}.v', 'Scope'),
+        # the enclosing class binds the name Dk too: class scopes do not nest, the nested class body sees the module's Dk
+        ('nested-decoy-u', f'{pa}/s/u.py', f'{pa}.s.u', 'Outer.Scope'),
     ]
 
 
-def place(stmts: Sequence[str], scope_path: str) -> str:
+def place(stmts: Sequence[str], scope_path: str, decoy: Optional[Tuple[str, str]] = None) -> str:
     body = '\n'.join(stmts) + '\n'
     if not scope_path:
         return body
     parts = scope_path.split('.')
-    out = ''
+    out = (decoy[0] + '\n') if decoy else ''
     ind = ''
-    for p in parts:
+    for i, p in enumerate(parts):
         out += f'{ind}class {p}:\n'
         ind += '    '
         out += f'{ind}"scope class"\n'
+        if decoy and i == 0:
+            out += f'{ind}{decoy[1]}\n'
     out += ''.join(ind + l + '\n' for l in body.splitlines())
     return out
 
@@ -134,7 +140,8 @@ def run_case(tag: str, scope_idx: int, stmt_idx: Sequence[int], res: Dict[str, A
     sname, relfile, modname, scope_path = scopes(pa, qa)[scope_idx]
     sts = [statements(pa, qa)[i] for i in stmt_idx]
     generic = [statements('PA', 'QA')[i] for i in stmt_idx]
-    files[relfile] = files[relfile] + place(sts, scope_path)
+    decoy = (f'from {pa}.c import Kc as Dk, fc as Df', f'from {pa}.b import Kb as Dk, fb as Df') if sname == 'nested-decoy-u' else None
+    files[relfile] = files[relfile] + place(sts, scope_path, decoy)
     case = {'kind': 'case', 'scope': scope_idx, 'stmts': list(stmt_idx)}
     with pd.scratch('c04') as d:
         pd.write_tree(d, files)
